@@ -682,7 +682,11 @@ def genImplCase (fam : String) (seed idx : Nat) : Case := runGen seed idx do
       let t2 ← genComposedSelf
       pure (wh ++ [.ty [] t1 [.trait false [] (.path false [.mk "Tr" [.ty t2]])]]))
     else pure wh
-  let ps : List GParam := (if generic then [.ty "T" [] none] else []) ++
+  -- inline bounds of the impl's parameters may mention `Self` too
+  let tb ← pickW [(4, ([] : List TBound)), (1, [.trait false [] (.path false [.mk "Conv" [.ty Ty.selfTy]]), .trait false [] (Ty.simple "Clone")]),
+                  (1, [.trait false [] (.path false [.mk "Tr" [.assoc "Assoc" (Ty.app "Vec" [Ty.selfTy])]])])]
+  let tb ← if ← chance 1 8 then (do pure [TBound.trait false [] (.path false [.mk "Conv" [.ty (← genComposedSelf)]])]) else pure tb
+  let ps : List GParam := (if generic then [.ty "T" tb none] else []) ++
     (match selfTy with | .ref (some _) _ _ => [.lt "'a" []] | _ => [])
   let ps := ps.filter (·.isLt) ++ ps.filter (!·.isLt)
   let wh := if generic then wh else wh.filter fun | .ty _ (.path false [.mk "T" []]) _ => false | _ => true
